@@ -196,6 +196,7 @@ pub fn gen_case(prop: &str, seed: u64) -> Case {
             case.sessions = vec![tests];
             case.params.insert("avoid".into(), avoid.on as i64);
         }
+        "C08" | "C09" | "C10" => gen_sched(prop, &mut case, &mut wrng, &mut krng, &mut knobs, avoid),
         _ => {}
     }
     // first keys are "required by the range-filter scan rule"; only C05, whose quantifier names
@@ -205,4 +206,197 @@ pub fn gen_case(prop: &str, seed: u64) -> Case {
     }
     case.knobs = Some(knobs);
     case
+}
+
+
+fn simple_table(name: &str, pk: bool) -> TableDef {
+    TableDef {
+        name: name.to_string(),
+        cols: vec![
+            Col {
+                name: "c0".into(),
+                ty: Ty::Int,
+                nullable: !pk,
+            },
+            Col {
+                name: "c1".into(),
+                ty: Ty::Int,
+                nullable: true,
+            },
+        ],
+        pk: if pk { Some(0) } else { None },
+    }
+}
+
+fn fresh_rows(rng: &mut Rng, next: &mut i64, n: usize) -> Vec<Row> {
+    (0..n)
+        .map(|_| {
+            *next += 1;
+            vec![
+                Val::Int(*next),
+                if rng.chance(1, 6) {
+                    Val::Null
+                } else {
+                    Val::Int(rng.range(0, 3))
+                },
+            ]
+        })
+        .collect()
+}
+
+fn del_pred(rng: &mut Rng, max_id: i64) -> Pred {
+    match rng.usize(4) {
+        0 => Pred(vec![Atom::Cmp {
+            col: "c1".into(),
+            op: Cmp::Eq,
+            val: Val::Int(rng.range(0, 3)),
+        }]),
+        1 => Pred(vec![Atom::Cmp {
+            col: "c0".into(),
+            op: *rng.pick(&[Cmp::Lt, Cmp::Le]),
+            val: Val::Int(rng.range(1, max_id.max(2))),
+        }]),
+        2 => Pred(vec![Atom::Cmp {
+            col: "c0".into(),
+            op: *rng.pick(&[Cmp::Gt, Cmp::Ge]),
+            val: Val::Int(rng.range(1, max_id.max(2))),
+        }]),
+        _ => Pred(vec![
+            Atom::Cmp {
+                col: "c0".into(),
+                op: Cmp::Ge,
+                val: Val::Int(rng.range(1, max_id.max(2))),
+            },
+            Atom::Cmp {
+                col: "c1".into(),
+                op: Cmp::Ne,
+                val: Val::Int(rng.range(0, 3)),
+            },
+        ]),
+    }
+}
+
+/// Cases of the scheduler engine: setup statements, concurrent sessions, readers, gate sites.
+fn gen_sched(prop: &str, case: &mut Case, w: &mut Rng, k: &mut Rng, knobs: &mut Knobs, avoid: Avoid) {
+    use crate::sched::REPO_SITES;
+    let mut next = 0i64;
+    let ntables = if prop == "C10" { 1 + w.usize(2) } else { 2 + w.usize(2) };
+    let names: Vec<String> = (0..ntables).map(|i| format!("t{i}")).collect();
+    // ---- setup: tables with several row-sets
+    for n in &names {
+        let pk = w.chance(1, 2);
+        if prop == "C10" && w.chance(1, 3) {
+            continue; // created by a session instead
+        }
+        case.setup.push(Stmt::CreateTable(simple_table(n, pk)));
+        for _ in 0..(1 + w.usize(4)) {
+            let cnt = 1 + w.usize(6);
+            case.setup.push(Stmt::Insert {
+                table: n.clone(),
+                cols: vec![],
+                rows: fresh_rows(w, &mut next, cnt),
+            });
+        }
+        if w.chance(1, 3) {
+            case.setup.push(Stmt::Delete {
+                table: n.clone(),
+                pred: del_pred(w, next),
+            });
+        }
+    }
+    if w.chance(1, 3) {
+        case.params.insert("setup_advance_ms".into(), 1500);
+    }
+    // ---- sessions
+    let nsess = 2 + w.usize(2);
+    let budget = if prop == "C10" { 4 } else { 3 };
+    for _ in 0..nsess {
+        let mut st = vec![];
+        for _ in 0..(1 + w.usize(budget)) {
+            let t = names[w.usize(names.len())].clone();
+            let x = w.usize(100);
+            let s = match prop {
+                "C10" => {
+                    if x < 12 {
+                        Stmt::CreateTable(simple_table(&t, w.chance(1, 2)))
+                    } else if x < 22 {
+                        Stmt::DropTable { name: t }
+                    } else if x < 55 {
+                        let cnt = 1 + w.usize(4);
+                        Stmt::Insert {
+                            table: t,
+                            cols: vec![],
+                            rows: fresh_rows(w, &mut next, cnt),
+                        }
+                    } else if x < 80 {
+                        Stmt::Delete {
+                            table: t,
+                            pred: del_pred(w, next),
+                        }
+                    } else {
+                        let mut q = Query::star(&t);
+                        q.count = true;
+                        Stmt::Select(q)
+                    }
+                }
+                "C08" => {
+                    if x < 50 {
+                        let cnt = 1 + w.usize(5);
+                        Stmt::Insert {
+                            table: t,
+                            cols: vec![],
+                            rows: fresh_rows(w, &mut next, cnt),
+                        }
+                    } else if x < 90 {
+                        Stmt::Delete {
+                            table: t,
+                            pred: del_pred(w, next),
+                        }
+                    } else {
+                        Stmt::DropTable { name: t }
+                    }
+                }
+                _ => {
+                    if x < 50 {
+                        let cnt = 1 + w.usize(5);
+                        Stmt::Insert {
+                            table: t,
+                            cols: vec![],
+                            rows: fresh_rows(w, &mut next, cnt),
+                        }
+                    } else {
+                        Stmt::Delete {
+                            table: t,
+                            pred: del_pred(w, next),
+                        }
+                    }
+                }
+            };
+            st.push(s);
+        }
+        case.sessions.push(st);
+    }
+    if prop == "C08" {
+        case.params.insert("readers".into(), 1 + w.usize(2) as i64);
+        case.params.insert("reader_table".into(), w.usize(4) as i64);
+        case.params.insert("reader_batch".into(), *w.pick(&[0i64, 1, 2, 5]));
+        case.params.insert("reader_sorted".into(), w.usize(2) as i64);
+    }
+    // ---- gate density (swarm): which repo sites park in this run
+    let density = *k.pick(&[0u64, 15, 35, 60, 100]);
+    let family: &[&str] = match prop {
+        "C08" => &["txn.", "vm.", "vacuum.", "compactor.", "ddl."],
+        "C09" => &["txn.", "vm.", "compactor.", "vacuum."],
+        _ => &["db.", "txn.", "vm.", "ddl.", "compactor."],
+    };
+    for s in REPO_SITES {
+        if family.iter().any(|f| s.starts_with(f)) && k.chance(density, 100) {
+            case.sites.push(s.to_string());
+        }
+    }
+    // the compactor only matters if it has several row-sets to merge
+    if k.chance(1, 2) {
+        knobs.rowset_size = *k.pick(&[256usize, 1024, 4096, 1 << 20]);
+    }
+    case.params.insert("avoid".into(), avoid.on as i64);
 }
